@@ -31,6 +31,13 @@ pub struct GenConfig {
     pub risky: bool,
     /// list-typed arguments fed by list-typed variables (rejected by the compiler: known finding)
     pub list_variables: bool,
+    /// `__refetch` selections on object types that have an `id` (off in every preset, so the
+    /// tape -> project mapping of the presets is unchanged; artcheck turns it on)
+    pub refetch_fields: bool,
+    /// extra weight (number of additional candidate entries) of refetchable selections — client
+    /// fields and pointers, exposed fields, `__refetch` — in every selection set; 0 in every
+    /// preset (C25 raises it so that refetch references are reused at several depths)
+    pub ref_weight: usize,
 }
 
 impl GenConfig {
@@ -48,6 +55,8 @@ impl GenConfig {
             max_decls: 5,
             risky: false,
             list_variables: false,
+            refetch_fields: false,
+            ref_weight: 0,
         }
     }
     pub fn client_graph() -> GenConfig {
@@ -70,6 +79,8 @@ impl GenConfig {
             max_decls: 7,
             risky: false,
             list_variables: false,
+            refetch_fields: false,
+            ref_weight: 0,
         }
     }
     pub fn risky(mut self) -> GenConfig {
@@ -545,6 +556,7 @@ enum Cand {
     AsType(String),
     Client(usize),
     Exposed(usize),
+    Refetch,
 }
 
 fn gen_selset(c: &mut Ctx, p: &Project, ty: &str, depth: usize, dc: &mut DeclCtx, decl_index: usize) -> Vec<Sel> {
@@ -580,6 +592,15 @@ fn gen_selset(c: &mut Ctx, p: &Project, ty: &str, depth: usize, dc: &mut DeclCtx
             if e.attached_to == ty {
                 cands.push(Cand::Exposed(j));
             }
+        }
+    }
+    if c.cfg.refetch_fields && ty != "Query" && kind == TypeKind::Object && schema.get(ty).map(|t| t.has_id()).unwrap_or(false) {
+        cands.push(Cand::Refetch);
+    }
+    if c.cfg.ref_weight > 0 {
+        let heavy: Vec<Cand> = cands.iter().filter(|x| matches!(x, Cand::Client(_) | Cand::Exposed(_) | Cand::Refetch)).cloned().collect();
+        for _ in 0..c.cfg.ref_weight {
+            cands.extend(heavy.iter().cloned());
         }
     }
     let n = c.t.range(1, 4);
@@ -626,6 +647,7 @@ fn gen_selset(c: &mut Ctx, p: &Project, ty: &str, depth: usize, dc: &mut DeclCtx
                 let name = e.alias.clone().unwrap_or_else(|| e.path[0].clone());
                 Sel { alias: None, name, args: vec![], directive: SelDirective::None, children: None, target: Target::Exposed(j) }
             }
+            Cand::Refetch => Sel { alias: None, name: "__refetch".into(), args: vec![], directive: SelDirective::None, children: None, target: Target::Refetch },
         };
         // unique response names inside one selection set (a C16 rule): alias on collision, and
         // sometimes voluntarily
